@@ -308,3 +308,57 @@ class K5SemOpt(K5Sem):
         if isinstance(real_c, dict) and "skip" in real_c:
             return True
         return super().agree(real_c, model_c)
+
+
+def _twin_pipe(pipe, suffix, off):
+    """a copy of `pipe` over the twin tables (every table name + suffix; "def"/"ref" numbers shifted by `off`)"""
+    import copy
+    q = copy.deepcopy(pipe)
+
+    def walk(p):
+        if not isinstance(p, dict):
+            return
+        if "table" in p:
+            p["table"] = p["table"] + suffix
+        if "def" in p:
+            p["def"] = p["def"] + off
+        if "ref" in p:
+            p["ref"] = p["ref"] + off
+        if "src" in p:
+            walk(p["src"])
+        for s in p.get("steps") or []:
+            if isinstance(s.get("b"), dict):
+                walk(s["b"])
+    walk(q)
+    return q
+
+
+class K5Twins(K5SemOpt):
+    """P(tables) concat P(twin tables): the twin tables have the same columns and other rows, so the two branches are
+    step for step the same calls on different inputs - what a CTE-elimination key must tell apart.  Always WITH form +
+    CTE elimination on the PostgreSQL dialect (the only configuration in which the cache is live)."""
+    name = "k5_twins"
+    driver_suite = "k5_semopt"
+    n_quick, n_thorough = 60, 600
+    gen_opts = dict(K4Sem.gen_opts, shared=0.3, max_depth=5, convert_records=0.0)
+
+    def gen(self, rng, tier):
+        for c in K4Sem.gen(self, rng, tier):
+            r = random.Random(rng.getrandbits(64))
+            tw = {}
+            for k, t in c["tables"].items():
+                # other rows: the same rows permuted with one row dropped (a sub-multiset keeps what the generator
+                # guaranteed about the data: unique columns stay unique, total window orders stay total)
+                rows2 = [list(x) for x in t["rows"]]
+                r.shuffle(rows2)
+                rows2 = rows2[1:]
+                tw[k + "_tw"] = dict(t, rows=rows2)
+            pipe = {"src": c["pipe"], "steps": [{"call": "concat_rows", "b": _twin_pipe(c["pipe"], "_tw", 1000),
+                                                 "id_column": r.choice([None, "src_tw"]), "a_name": "a", "b_name": "b"}]}
+            case = {"tables": dict(c["tables"], **tw), "pipe": pipe, "dialect": "postgres", "merges": r.random() < 0.7,
+                    "use_with": True, "cte_elim": True}
+            try:
+                self._build(case)
+            except Exception:
+                continue
+            yield case
